@@ -11,9 +11,9 @@ Import ListNotations.
 Lemma Forall2_refl_in : forall A (R : A -> A -> Prop) l, Forall (fun x => R x x) l -> Forall2 R l l.
 Proof. induction l; intros H; constructor; inversion H; subst; auto. Qed.
 
-Lemma embeds_refl : forall d, embeds d d.
+Lemma embeds_refl : forall fr d, embeds_g fr d d.
 Proof.
-  induction d using node_ind'.
+  intros fr. induction d using node_ind'.
   - constructor.
   - rewrite <- (app_nil_r kvs) at 2. constructor. apply Forall2_refl_in.
     rewrite Forall_forall in *. intros kv Hkv. split; auto. apply (proj2 (H kv Hkv)).
@@ -24,9 +24,9 @@ Qed.
 Lemma Forall2_refl : forall A (R : A -> A -> Prop) l, (forall x, R x x) -> Forall2 R l l.
 Proof. induction l; intros; constructor; auto. Qed.
 
-Lemma extends_embeds : forall n n', extends n n' -> embeds n n'.
+Lemma extends_embeds : forall fr n n', extends n n' -> embeds_g fr n n'.
 Proof.
-  intros n n' H. destruct H.
+  intros fr n n' H. destruct H.
   - apply embeds_refl.
   - constructor. apply Forall2_refl. intros kv. split; auto. apply embeds_refl.
   - constructor. apply Forall2_refl. apply embeds_refl.
@@ -44,11 +44,11 @@ Proof.
 Qed.
 
 (* replacing the container object o by c' embeds the old document when c' embeds every occurrence of o *)
-Lemma app_obj_embeds : forall o c' d,
-  (forall n, In n (objs o d) -> embeds n c') ->
-  exists d', app_obj o (fun _ => ROk c') d = ROk d' /\ embeds d d'.
+Lemma app_obj_embeds : forall fr o c' d,
+  (forall n, In n (objs o d) -> embeds_g fr n c') ->
+  exists d', app_obj o (fun _ => ROk c') d = ROk d' /\ embeds_g fr d d'.
 Proof.
-  intros o c' d. induction d using node_ind'; intros Hloc.
+  intros fr o c' d. induction d using node_ind'; intros Hloc.
   - exists (NLeaf i v). split; [reflexivity|constructor].
   - destruct (N.eqb (oid i) o) eqn:E.
     + exists c'. split.
@@ -56,7 +56,7 @@ Proof.
       * apply Hloc. simpl. rewrite E. left. reflexivity.
     + destruct (rmapM_Forall2 _ _
                  (fun kv : node * node => rbind (app_obj o (fun _ => ROk c') (snd kv)) (fun v => ROk (fst kv, v)))
-                 (fun kv kv' => fst kv' = fst kv /\ embeds (snd kv) (snd kv')) kvs) as [kvs' [Hk Rk]].
+                 (fun kv kv' => fst kv' = fst kv /\ embeds_g fr (snd kv) (snd kv')) kvs) as [kvs' [Hk Rk]].
       { rewrite Forall_forall in *. intros kv Hkv.
         destruct (proj2 (H kv Hkv)) as [v' [Hv Ev]].
         { intros n Hn. apply Hloc. simpl. rewrite E. simpl. apply in_flat_map. exists kv; auto. }
@@ -68,7 +68,7 @@ Proof.
     + exists c'. split.
       * simpl. unfold is_obj. simpl. rewrite E. reflexivity.
       * apply Hloc. simpl. rewrite E. left. reflexivity.
-    + destruct (rmapM_Forall2 _ _ (app_obj o (fun _ => ROk c')) embeds els) as [els' [Hk Rk]].
+    + destruct (rmapM_Forall2 _ _ (app_obj o (fun _ => ROk c')) (embeds_g fr) els) as [els' [Hk Rk]].
       { rewrite Forall_forall in *. intros x Hx. apply (H x Hx).
         intros n Hn. apply Hloc. simpl. rewrite E. simpl. apply in_flat_map. exists x; auto. }
       exists (NSeq i els'). split.
@@ -83,10 +83,10 @@ Proof.
       * apply embeds_refl.
 Qed.
 
-Lemma put_obj_embeds : forall o c' d,
-  (forall n, In n (objs o d) -> embeds n c') -> embeds d (put_obj o c' d).
+Lemma put_obj_embeds : forall fr o c' d,
+  (forall n, In n (objs o d) -> embeds_g fr n c') -> embeds_g fr d (put_obj o c' d).
 Proof.
-  intros o c' d H. unfold put_obj. destruct (app_obj_embeds o c' d H) as [d' [E1 E2]]. rewrite E1. exact E2.
+  intros fr o c' d H. unfold put_obj. destruct (app_obj_embeds fr o c' d H) as [d' [E1 E2]]. rewrite E1. exact E2.
 Qed.
 
 (* ---------------- objs: sub-objects ---------------- *)
@@ -195,9 +195,19 @@ Lemma walk_unfold : forall lit s rest cur pc d next vo value,
   rbind (found_of cur s) (fun f =>
     match f with
     | Some (child, cpc) =>
-        match child with
-        | NLeaf _ PNone => ROk (d, cpc, next)
-        | _ => walk lit rest child cpc d next vo value
+        match child, rest with
+        | NLeaf _ PNone, _ :: _ =>
+            match cur with
+            | NMap _ _ | NSeq _ _ =>
+                rbind (build_next lit rest value next vo) (fun cont =>
+                rbind (grow lit rest cont cpc (N.succ next) vo value) (fun g =>
+                match coid cur with
+                | Some o => ROk (put_obj o (null_put cur s (fst (fst g))) d, snd (fst g), snd g)
+                | None => RErr (YPE Generic)
+                end))
+            | _ => RErr (YPE Generic)
+            end
+        | _, _ => walk lit rest child cpc d next vo value
         end
     | None =>
         rbind (grow lit (s :: rest) cur pc next vo value) (fun g =>
@@ -207,6 +217,40 @@ Lemma walk_unfold : forall lit s rest cur pc d next vo value,
         end)
     end).
 Proof. intros. destruct cur, s; reflexivity. Qed.
+
+(* the two ways the walk goes on from a child it found *)
+Lemma walk_go : forall lit s rest cur pc d next vo value c cpc,
+  found_of cur s = ROk (Some (c, cpc)) -> is_null c = false \/ rest = [] ->
+  walk lit (s :: rest) cur pc d next vo value = walk lit rest c cpc d next vo value.
+Proof.
+  intros lit s rest cur pc d next vo value c cpc Ef Hn. rewrite walk_unfold, Ef. unfold rbind.
+  destruct Hn as [Hn| ->].
+  - destruct c as [ci cv|? ?|? ?|? ?]; try reflexivity. destruct cv; try reflexivity. discriminate.
+  - destruct c as [ci cv|? ?|? ?|? ?]; try reflexivity. destruct cv; reflexivity.
+Qed.
+
+Lemma walk_null : forall lit s s2 rest2 cur pc d next vo value ci cpc,
+  found_of cur s = ROk (Some (NLeaf ci PNone, cpc)) ->
+  walk lit (s :: s2 :: rest2) cur pc d next vo value =
+  match cur with
+  | NMap _ _ | NSeq _ _ =>
+      rbind (build_next lit (s2 :: rest2) value next vo) (fun cont =>
+      rbind (grow lit (s2 :: rest2) cont cpc (N.succ next) vo value) (fun g =>
+      match coid cur with
+      | Some o => ROk (put_obj o (null_put cur s (fst (fst g))) d, snd (fst g), snd g)
+      | None => RErr (YPE Generic)
+      end))
+  | _ => RErr (YPE Generic)
+  end.
+Proof. intros. rewrite walk_unfold, H. reflexivity. Qed.
+
+Lemma null_step_cases : forall (c : node) (rest : list seg),
+  (is_null c = false \/ rest = []) \/ (exists ci s2 rest2, c = NLeaf ci PNone /\ rest = s2 :: rest2).
+Proof.
+  intros c rest. destruct rest as [|s2 rest2]; [left; right; reflexivity|].
+  destruct c as [ci cv|? ?|? ?|? ?]; try (left; left; reflexivity).
+  destruct cv; try (left; left; reflexivity). right. exists ci, s2, rest2. auto.
+Qed.
 
 Lemma find_assoc_key : forall k kvs,
   assoc_key k kvs = option_map snd (find (key_is k) kvs).
@@ -292,24 +336,118 @@ Proof.
   destruct Hn as [<-|[]]. destruct Hm as [<-|[]]. reflexivity.
 Qed.
 
-Theorem walk_frame : forall lit segs cur pc d next vo value d' pc' next',
-  wf_doc d -> in_doc cur d ->
-  walk lit segs cur pc d next vo value = ROk (d', pc', next') -> embeds d d'.
+(* ---- a null replaced by a new container ---- *)
+Lemma put_key_F2 : forall lo k v i kvs kv,
+  find (key_is k) kvs = Some kv -> snd kv = NLeaf i PNone ->
+  is_leaf v = false -> (lo <= node_oid v)%N ->
+  Forall2 (fun kv kv' => fst kv' = fst kv /\ embeds_g (Some lo) (snd kv) (snd kv')) kvs (put_key k v kvs).
 Proof.
-  intros lit segs. induction segs as [|s rest IH]; intros cur pc d next vo value d' pc' next' Hwf Hin H.
+  intros lo k v i. induction kvs as [|kv0 r IH]; intros kv Hf Hs Hl Ho; simpl in *; [discriminate|].
+  destruct (key_is k kv0) eqn:E.
+  - inversion Hf; subst kv0. constructor.
+    + split; [reflexivity|]. simpl. rewrite Hs. constructor; assumption.
+    + apply Forall2_refl. intros x. split; [reflexivity|apply embeds_refl].
+  - constructor; [split; [reflexivity|apply embeds_refl]|]. eapply IH; eauto.
+Qed.
+
+Lemma put_nth_F2 : forall lo v i els n,
+  nth_error els n = Some (NLeaf i PNone) -> is_leaf v = false -> (lo <= node_oid v)%N ->
+  Forall2 (embeds_g (Some lo)) els (put_nth n v els).
+Proof.
+  intros lo v i. induction els as [|x r IH]; intros n Hn Hl Ho; [destruct n; discriminate|].
+  destruct n as [|m]; simpl in *.
+  - inversion Hn; subst x. constructor; [constructor; assumption|]. apply Forall2_refl. apply embeds_refl.
+  - constructor; [apply embeds_refl|]. apply IH; assumption.
+Qed.
+
+Lemma null_put_embeds : forall lo cur s ci cpc v,
+  found_of cur s = ROk (Some (NLeaf ci PNone, cpc)) ->
+  is_leaf v = false -> (lo <= node_oid v)%N ->
+  embeds_g (Some lo) cur (null_put cur s v).
+Proof.
+  intros lo cur s ci cpc v H Hl Ho. destruct cur as [i x|i kvs|i els|i els]; simpl in H.
+  - destruct s; discriminate.
+  - destruct s as [k ko|z]; [|discriminate].
+    destruct (find (key_is (PStr k)) kvs) as [kv|] eqn:Ef; [|discriminate]. inversion H; subst.
+    simpl. rewrite <- (app_nil_r (put_key _ _ _)). constructor.
+    eapply put_key_F2; eauto.
+  - unfold null_put.
+    destruct (match s with SIdx z => Some z | SKey k _ => py_int k end) as [z|] eqn:Ez.
+    + cbv zeta in H.
+      destruct (z <? Z.of_nat (length els))%Z; [|discriminate].
+      destruct (0 <=? z)%Z.
+      * destruct (nth_error els (Z.to_nat z)) eqn:En; [|discriminate]. inversion H; subst.
+        rewrite <- (app_nil_r (put_nth _ _ _)). constructor. eapply put_nth_F2; eauto.
+      * destruct (0 <=? z + Z.of_nat (length els))%Z; [|discriminate].
+        destruct (nth_error els (Z.to_nat (z + Z.of_nat (length els)))) eqn:En; [|discriminate]. inversion H; subst.
+        rewrite <- (app_nil_r (put_nth _ _ _)). constructor. eapply put_nth_F2; eauto.
+    + destruct s as [k ko|z0]; [|discriminate].
+      match type of H with (if ?c then _ else _) = _ => destruct c end; discriminate.
+  - destruct s as [k ko|z]; [|discriminate].
+    destruct (find (member_is (PStr k)) els) as [m|] eqn:Ef; [|discriminate]. inversion H; subst.
+    apply find_some in Ef. destruct Ef as [_ Ef]. simpl in Ef. discriminate.
+Qed.
+
+Lemma build_next_cont : forall lit s2 rest2 value next vo x,
+  build_next lit (s2 :: rest2) value next vo = ROk x -> is_leaf x = false /\ node_oid x = next.
+Proof. intros lit s2 rest2 value next vo x H. destruct s2; simpl in H; inversion H; subst; split; reflexivity. Qed.
+
+Lemma extends_root : forall n n', extends n n' -> is_leaf n' = is_leaf n /\ node_oid n' = node_oid n.
+Proof. intros n n' H. destruct H; split; reflexivity. Qed.
+
+Lemma null_prefix_step : forall cur s rest c,
+  seg_child cur s = Some c -> is_null c = false \/ rest = [] ->
+  null_prefix cur (s :: rest) = null_prefix c rest.
+Proof.
+  intros cur s rest c Hs Hn. simpl. rewrite Hs. destruct Hn as [Hn| ->].
+  - rewrite Hn. reflexivity.
+  - destruct (is_null c); reflexivity.
+Qed.
+
+(* FRAME along the walk.  [lo] is any bound below the identities the walk hands
+   out: when the existing prefix ends at a null with segments to go
+   ([null_prefix]) that null - and nothing else - may have become a new
+   container; otherwise the embedding is the strict one. *)
+Theorem walk_frame_g : forall lit segs cur pc d next vo value d' pc' next' lo,
+  wf_doc d -> in_doc cur d -> (lo <= next)%N ->
+  walk lit segs cur pc d next vo value = ROk (d', pc', next') ->
+  embeds_g (if null_prefix cur segs then Some lo else None) d d'.
+Proof.
+  intros lit segs. induction segs as [|s rest IH]; intros cur pc d next vo value d' pc' next' lo Hwf Hin Hlo H.
   - simpl in H. inversion H; subst. apply embeds_refl.
-  - rewrite walk_unfold in H.
-    destruct (found_of cur s) as [[[c cpc]|]|e] eqn:Ef; unfold rbind in H; [| |discriminate].
+  - destruct (found_of cur s) as [[[c cpc]|]|e] eqn:Ef.
     + pose proof (found_is_child _ _ _ _ Ef) as Hc.
-      assert (Hw : walk lit rest c cpc d next vo value = ROk (d', pc', next') -> embeds d d').
-      { intros Hw. apply (IH c cpc d next vo value d' pc' next' Hwf); auto. eapply in_doc_child; eauto. }
-      destruct c as [ci cv|ci ck|ci ce|ci ce]; auto.
-      destruct cv; auto. inversion H; subst. apply embeds_refl.
-    + destruct (grow lit (s :: rest) cur pc next vo value) as [g|e] eqn:Eg; [|discriminate].
+      pose proof (found_agrees _ _ _ Ef) as Hsc. simpl in Hsc.
+      destruct (null_step_cases c rest) as [Hgo|[ci [s2 [rest2 [-> ->]]]]].
+      * rewrite (walk_go _ _ _ _ _ _ _ _ _ _ _ Ef Hgo) in H.
+        rewrite (null_prefix_step _ _ _ _ Hsc Hgo).
+        apply (IH c cpc d next vo value d' pc' next' lo Hwf); auto. eapply in_doc_child; eauto.
+      * rewrite (walk_null _ _ _ _ _ _ _ _ _ _ _ _ Ef) in H.
+        replace (null_prefix cur (s :: s2 :: rest2)) with true by (simpl; rewrite Hsc; reflexivity).
+        assert (Hcur : exists o, coid cur = Some o /\
+                  exists cont g, build_next lit (s2 :: rest2) value next vo = ROk cont /\
+                    grow lit (s2 :: rest2) cont cpc (N.succ next) vo value = ROk g /\
+                    d' = put_obj o (null_put cur s (fst (fst g))) d).
+        { unfold rbind in H.
+          destruct cur as [i x|i kvs|i els|i els]; try discriminate;
+            (destruct (build_next lit (s2 :: rest2) value next vo) as [cont|e] eqn:Eb; [|discriminate]);
+            (destruct (grow lit (s2 :: rest2) cont cpc (N.succ next) vo value) as [g|e] eqn:Eg; [|discriminate]);
+            simpl in H; inversion H; subst; eexists; (split; [reflexivity|]); exists cont, g; auto. }
+        destruct Hcur as [o [Ec [cont [g [Eb [Eg ->]]]]]].
+        apply put_obj_embeds. intros n Hn.
+        rewrite (objs_unique o d cur n Hwf (Hin o Ec) Hn).
+        destruct (build_next_cont _ _ _ _ _ _ _ Eb) as [B1 B2].
+        destruct (extends_root _ _ (grow_extends _ _ _ _ _ _ _ _ Eg)) as [G1 G2].
+        apply (null_put_embeds lo cur s ci cpc _ Ef); [rewrite G1; exact B1|rewrite G2, B2; exact Hlo].
+    + rewrite walk_unfold, Ef in H. unfold rbind in H.
+      pose proof (found_agrees _ _ _ Ef) as Hsc. simpl in Hsc.
+      replace (null_prefix cur (s :: rest)) with false by (simpl; rewrite Hsc; reflexivity).
+      destruct (grow lit (s :: rest) cur pc next vo value) as [g|e] eqn:Eg; [|discriminate].
       destruct (coid cur) as [o|] eqn:Ec; [|discriminate]. inversion H; subst.
       apply put_obj_embeds. intros n Hn.
       rewrite (objs_unique o d cur n Hwf (Hin o Ec) Hn).
       apply extends_embeds. eapply grow_extends; eauto.
+    + rewrite walk_unfold, Ef in H. discriminate.
 Qed.
 
 (* ---------------- the pure form of put_obj ---------------- *)
@@ -416,14 +554,13 @@ Proof. intros. unfold py_eq. simpl. apply String.eqb_refl. Qed.
 Theorem grow_new : forall lit segs n pc next vo value g old s rest,
   segs = s :: rest ->
   grow lit segs n pc next vo value = ROk g ->
-  seg_child n s = None -> is_set n = false -> (old = None \/ old = Some n) ->
+  seg_child n s = None -> is_set n = false ->
+  match old with Some n0 => seg_child n0 s | None => None end = None ->
   exists w fresh, resolve (fst (fst g)) segs = Some w /\ wrap_type lit value fresh vo = ROk w /\
                   padded_ok old (fst (fst g)) segs = true.
 Proof.
-  intros lit segs. induction segs as [|s0 rest0 IH]; intros n pc next vo value g old s rest Hs Hg Hnone Hset Hold;
+  intros lit segs. induction segs as [|s0 rest0 IH]; intros n pc next vo value g old s rest Hs Hg Hnone Hset Hoc;
     [discriminate|]. inversion Hs; subst s0 rest0. clear Hs.
-  assert (Hoc : match old with Some n0 => seg_child n0 s | None => None end = None).
-  { destruct Hold as [->| ->]; auto. }
   simpl in Hg. destruct n as [i v|i kvs|i els|i els]; [discriminate| | |discriminate].
   - (* mapping *)
     destruct s as [k ko|z]; [|discriminate].
@@ -439,7 +576,7 @@ Proof.
     { destruct rest as [|s2 rest2].
       - simpl in Eg. inversion Eg; subst. simpl in Eb. exists c1, next. auto.
       - destruct (build_next_empty _ _ _ _ _ _ _ Eb) as [A B].
-        eapply (IH child _ _ _ _ _ None s2 rest2 eq_refl Eg A B). left. reflexivity. }
+        eapply (IH child _ _ _ _ _ None s2 rest2 eq_refl Eg A B). reflexivity. }
     destruct Hrest as [w [fresh [R1 [R2 R3]]]]. exists w, fresh.
     cbn [resolve padded_ok]. rewrite Hsc, Hoc. simpl. auto.
   - (* sequence *)
@@ -470,7 +607,7 @@ Proof.
     { destruct rest as [|s2 rest2].
       - simpl in Eg. inversion Eg; subst. simpl in Eb. exists c1, fr. auto.
       - destruct (build_next_empty _ _ _ _ _ _ _ Eb) as [A B].
-        eapply (IH lastn _ _ _ _ _ None s2 rest2 eq_refl Eg A B). left. reflexivity. }
+        eapply (IH lastn _ _ _ _ _ None s2 rest2 eq_refl Eg A B). reflexivity. }
     destruct Hrest as [w [fresh [R1 [R2 R3]]]]. exists w, fresh.
     cbn [resolve padded_ok]. rewrite Hsc, Hoc, Ez. rewrite R1, R3.
     repeat split; auto. rewrite andb_true_r. apply Z.eqb_eq.
@@ -489,6 +626,75 @@ Proof.
   destruct (N.eqb x o) eqn:E; auto. apply N.eqb_eq in E. subst. congruence.
 Qed.
 
+(* the replaced child is what the segment now reads *)
+Lemma find_put_key : forall k v kvs kv,
+  find (key_is k) kvs = Some kv -> find (key_is k) (put_key k v kvs) = Some (fst kv, v).
+Proof.
+  induction kvs as [|kv0 r IH]; intros kv H; simpl in *; [discriminate|].
+  destruct (key_is k kv0) eqn:E.
+  - inversion H; subst. simpl. unfold key_is in *. simpl. rewrite E. reflexivity.
+  - simpl. rewrite E. apply IH. exact H.
+Qed.
+
+Lemma put_nth_length : forall v els n, length (put_nth n v els) = length els.
+Proof. induction els as [|x r IH]; intros n; destruct n; simpl; auto. Qed.
+
+Lemma nth_put_nth : forall v els n x, nth_error els n = Some x -> nth_error (put_nth n v els) n = Some v.
+Proof.
+  induction els as [|y r IH]; intros n x H; [destruct n; discriminate|].
+  destruct n; simpl in *; [reflexivity|eapply IH; eauto].
+Qed.
+
+Lemma null_put_child : forall cur s ci cpc v,
+  found_of cur s = ROk (Some (NLeaf ci PNone, cpc)) -> seg_child (null_put cur s v) s = Some v.
+Proof.
+  intros cur s ci cpc v H. destruct cur as [i x|i kvs|i els|i els]; simpl in H.
+  - destruct s; discriminate.
+  - destruct s as [k ko|z]; [|discriminate].
+    destruct (find (key_is (PStr k)) kvs) as [kv|] eqn:Ef; [|discriminate].
+    unfold seg_child. simpl. rewrite find_assoc_key, (find_put_key _ v _ _ Ef). reflexivity.
+  - unfold null_put, seg_child. unfold seg_int in *.
+    destruct (match s with SIdx z => Some z | SKey k _ => py_int k end) as [z|] eqn:Ez.
+    + cbv zeta in H. unfold seg_ref, seg_int. rewrite Ez. rewrite put_nth_length.
+      destruct (z <? Z.of_nat (length els))%Z; [|discriminate].
+      destruct (0 <=? z)%Z.
+      * destruct (nth_error els (Z.to_nat z)) eqn:En; [|discriminate]. simpl. eapply nth_put_nth; eauto.
+      * destruct (0 <=? z + Z.of_nat (length els))%Z; [|discriminate].
+        destruct (nth_error els (Z.to_nat (z + Z.of_nat (length els)))) eqn:En; [|discriminate].
+        simpl. eapply nth_put_nth; eauto.
+    + destruct s as [k ko|z0]; [|discriminate].
+      match type of H with (if ?c then _ else _) = _ => destruct c end; discriminate.
+  - destruct s as [k ko|z]; [|discriminate].
+    destruct (find (member_is (PStr k)) els) as [m|] eqn:Ef; [|discriminate]. inversion H; subst.
+    apply find_some in Ef. destruct Ef as [_ Ef]. simpl in Ef. discriminate.
+Qed.
+
+Lemma resolve_cons : forall n s rest,
+  resolve n (s :: rest) = match seg_child n s with Some c => resolve c rest | None => None end.
+Proof. reflexivity. Qed.
+
+Lemma padded_cons : forall old new s rest,
+  padded_ok old new (s :: rest) =
+  match seg_child new s with
+  | None => false
+  | Some c' =>
+      let oc := match old with Some n => seg_child n s | None => None end in
+      (match new, seg_int s, oc with
+       | NSeq _ els', Some z, None => (Z.of_nat (length els') =? z + 1)%Z
+       | _, _, _ => true
+       end) && padded_ok oc c' rest
+  end.
+Proof. reflexivity. Qed.
+
+Lemma creates_step : forall cur s rest c,
+  seg_child cur s = Some c -> is_null c = false \/ rest = [] ->
+  creates cur (s :: rest) = creates c rest.
+Proof.
+  intros cur s rest c Hs Hn. simpl. rewrite Hs. destruct Hn as [Hn| ->].
+  - rewrite Hn. reflexivity.
+  - destruct (is_null c); reflexivity.
+Qed.
+
 (* ---------------- RESOLVES and PADDING, along the whole walk ---------------- *)
 Theorem walk_doc : forall lit segs cur pc d next vo value d' pc' next',
   wf_doc cur ->
@@ -500,34 +706,67 @@ Theorem walk_doc : forall lit segs cur pc d next vo value d' pc' next',
 Proof.
   intros lit segs. induction segs as [|s rest IH]; intros cur pc d next vo value d' pc' next' Hwf H Hcr.
   - discriminate.
-  - rewrite walk_unfold in H.
-    destruct (found_of cur s) as [[[c cpc]|]|e] eqn:Ef; unfold rbind in H; [| |discriminate].
+  - destruct (found_of cur s) as [[[c cpc]|]|e] eqn:Ef.
     + pose proof (found_is_child _ _ _ _ Ef) as Hc.
       pose proof (found_agrees _ _ _ Ef) as Hsc. simpl in Hsc.
-      simpl in Hcr. rewrite Hsc in Hcr. apply andb_true_iff in Hcr. destruct Hcr as [Hnn Hcr].
-      assert (Hw : walk lit rest c cpc d next vo value = ROk (d', pc', next')).
-      { destruct c as [ci cv|ci ck|ci ce|ci ce]; auto. destruct cv; auto. discriminate. }
-      destruct (IH c cpc d next vo value d' pc' next' (child_wf _ _ Hc Hwf) Hw Hcr)
-        as [o [c' [Ho [Hd [w [fresh [R1 [R2 R3]]]]]]]].
-      exists o, c'. destruct (child_coids _ _ _ Hc Ho) as [Hin Hne].
-      split; auto. split; auto. exists w, fresh.
-      pose proof (seg_child_putf o c' cur s c Hsc (not_coid_is_obj _ _ (Hne Hwf))) as Hp.
-      cbn [resolve padded_ok]. rewrite Hp, Hsc, R1, R3. repeat split; auto.
-      destruct (putf o c' cur); destruct (seg_int s); reflexivity.
-    + destruct (grow lit (s :: rest) cur pc next vo value) as [g|e] eqn:Eg; [|discriminate].
+      destruct (null_step_cases c rest) as [Hgo|[ci [s2 [rest2 [-> ->]]]]].
+      * rewrite (walk_go _ _ _ _ _ _ _ _ _ _ _ Ef Hgo) in H.
+        rewrite (creates_step _ _ _ _ Hsc Hgo) in Hcr.
+        destruct (IH c cpc d next vo value d' pc' next' (child_wf _ _ Hc Hwf) H Hcr)
+          as [o [c' [Ho [Hd [w [fresh [R1 [R2 R3]]]]]]]].
+        exists o, c'. destruct (child_coids _ _ _ Hc Ho) as [Hin Hne].
+        split; auto. split; auto. exists w, fresh.
+        pose proof (seg_child_putf o c' cur s c Hsc (not_coid_is_obj _ _ (Hne Hwf))) as Hp.
+        cbn [resolve padded_ok]. rewrite Hp, Hsc, R1, R3. repeat split; auto.
+        destruct (putf o c' cur); destruct (seg_int s); reflexivity.
+      * (* the existing prefix ends at a null: it becomes the container the next segment needs *)
+        rewrite (walk_null _ _ _ _ _ _ _ _ _ _ _ _ Ef) in H. unfold rbind in H.
+        assert (Hcur : exists o, coid cur = Some o /\
+                  exists cont g, build_next lit (s2 :: rest2) value next vo = ROk cont /\
+                    grow lit (s2 :: rest2) cont cpc (N.succ next) vo value = ROk g /\
+                    d' = put_obj o (null_put cur s (fst (fst g))) d).
+        { destruct cur as [i x|i kvs|i els|i els]; try discriminate;
+            (destruct (build_next lit (s2 :: rest2) value next vo) as [cont|e] eqn:Eb; [|discriminate]);
+            (destruct (grow lit (s2 :: rest2) cont cpc (N.succ next) vo value) as [g|e] eqn:Eg; [|discriminate]);
+            simpl in H; inversion H; subst; eexists; (split; [reflexivity|]); exists cont, g; auto. }
+        destruct Hcur as [o [Ec [cont [g [Eb [Eg ->]]]]]].
+        exists o, (null_put cur s (fst (fst g))). split; [apply coid_in_coids; auto|]. split; auto.
+        rewrite (putf_obj o _ cur (coid_is_obj _ _ Ec)).
+        destruct (build_next_empty _ _ _ _ _ _ _ Eb) as [A B].
+        destruct (grow_new lit (s2 :: rest2) cont cpc (N.succ next) vo value g (Some (NLeaf ci PNone)) s2 rest2
+                    eq_refl Eg A B eq_refl) as [w [fresh [R1 [R2 R3]]]].
+        exists w, fresh.
+        pose proof (null_put_child cur s ci cpc (fst (fst g)) Ef) as Hp.
+        rewrite (resolve_cons _ s), (padded_cons _ _ s), Hp, Hsc. cbn [option_map fst]. rewrite R1, R3.
+        repeat split; auto.
+        destruct (null_put cur s (fst (fst g))); destruct (seg_int s); reflexivity.
+    + rewrite walk_unfold, Ef in H. unfold rbind in H.
+      destruct (grow lit (s :: rest) cur pc next vo value) as [g|e] eqn:Eg; [|discriminate].
       destruct (coid cur) as [o|] eqn:Ec; [|discriminate]. inversion H; subst.
       pose proof (found_agrees _ _ _ Ef) as Hsc. simpl in Hsc.
       simpl in Hcr. rewrite Hsc in Hcr. apply negb_true_iff in Hcr.
       exists o, (fst (fst g)). split; [apply coid_in_coids; auto|]. split; auto.
       rewrite (putf_obj o _ cur (coid_is_obj _ _ Ec)).
-      eapply (grow_new lit (s :: rest) cur pc next vo value g (Some cur) s rest eq_refl Eg Hsc Hcr). right. reflexivity.
+      eapply (grow_new lit (s :: rest) cur pc next vo value g (Some cur) s rest eq_refl Eg Hsc Hcr). exact Hsc.
+    + rewrite walk_unfold, Ef in H. discriminate.
 Qed.
 
 Theorem create_query_frame : forall lit segs value vo d d' pc next',
-  wf_doc d -> create_query lit segs value vo d = ROk (d', pc, next') -> embeds d d'.
+  wf_doc d -> create_query lit segs value vo d = ROk (d', pc, next') ->
+  embeds_g (if null_prefix d segs then Some (N.succ (max_oid d)) else None) d d'.
 Proof.
   intros lit segs value vo d d' pc next' Hwf H. unfold create_query in H.
-  destruct vo as [o|]; eapply walk_frame; eauto; intros o' Ho'; apply objs_self; auto.
+  destruct vo as [o|]; eapply walk_frame_g; eauto; try (intros o' Ho'; apply objs_self; auto); lia.
+Qed.
+
+(* the strict frame of every walk whose existing prefix does not end at a null (used by C03's history theorem) *)
+Corollary walk_frame : forall lit segs cur pc d next vo value d' pc' next',
+  wf_doc d -> in_doc cur d -> null_prefix cur segs = false ->
+  walk lit segs cur pc d next vo value = ROk (d', pc', next') -> embeds d d'.
+Proof.
+  intros lit segs cur pc d next vo value d' pc' next' Hwf Hin Hn H.
+  pose proof (walk_frame_g lit segs cur pc d next vo value d' pc' next' next Hwf Hin (N.le_refl _) H) as E.
+  rewrite Hn in E. exact E.
 Qed.
 
 Theorem create_query_doc : forall lit segs value vo d d' pc next',
@@ -553,11 +792,10 @@ Proof.
     destruct (IH c w H) as [l [L1 L2]]. exists (r :: l). simpl. rewrite Ec. auto.
 Qed.
 
-Lemma embeds_child : forall d d' r c,
-  embeds d d' -> child d r = Some c -> exists c', child d' r = Some c' /\ embeds c c'.
+Lemma embeds_child : forall fr d d' r c,
+  embeds_g fr d d' -> child d r = Some c -> exists c', child d' r = Some c' /\ embeds_g fr c c'.
 Proof.
-  intros d d' r c He Hc. inversion He; subst; simpl in Hc.
-  - destruct r; discriminate.
+  intros fr d d' r c He Hc. inversion He; subst; simpl in Hc; try (destruct r; discriminate).
   - destruct r as [k| |]; try discriminate. simpl. clear He.
     revert Hc. induction H as [|kv kv' l l' [Hk Hv] Hrest IHf]; intros Hc; simpl in *; [discriminate|].
     destruct kv as [kn v]. destruct kv' as [kn' v']. simpl in *. subst kn'.
@@ -574,16 +812,25 @@ Proof.
 Qed.
 
 (* every node of the old document is found at the same location of the new one, embedded *)
-Theorem embeds_lookup : forall l d d' n,
-  embeds d d' -> lookup d l = Some n -> exists n', lookup d' l = Some n' /\ embeds n n'.
+Theorem embeds_lookup : forall fr l d d' n,
+  embeds_g fr d d' -> lookup d l = Some n -> exists n', lookup d' l = Some n' /\ embeds_g fr n n'.
 Proof.
-  induction l as [|r rest IH]; intros d d' n He H; simpl in H.
+  intros fr. induction l as [|r rest IH]; intros d d' n He H; simpl in H.
   - inversion H; subst. exists d'. auto.
   - destruct (child d r) as [c|] eqn:Ec; [|discriminate].
-    destruct (embeds_child _ _ _ _ He Ec) as [c' [Ec' He']].
+    destruct (embeds_child _ _ _ _ _ He Ec) as [c' [Ec' He']].
     destruct (IH c c' n He' H) as [n' [L1 L2]]. exists n'. simpl. rewrite Ec'. auto.
 Qed.
 
 (* an embedded scalar is unchanged (identity, anchor, tag, value); an embedded container keeps its identity/anchor/tag *)
 Lemma embeds_info : forall n n', embeds n n' -> node_info n' = node_info n /\ (is_leaf n = true -> n' = n).
 Proof. intros n n' H. inversion H; subst; simpl; split; auto; discriminate. Qed.
+
+(* ... up to the one new clause: a null is itself or has become a new container *)
+Lemma embeds_g_info : forall lo n n', embeds_g (Some lo) n n' ->
+  (node_info n' = node_info n /\ (is_leaf n = true -> n' = n)) \/
+  (is_null n = true /\ is_leaf n' = false /\ (lo <= node_oid n')%N).
+Proof.
+  intros lo n n' H. inversion H; subst; simpl; try (left; split; auto; discriminate).
+  right. auto.
+Qed.
